@@ -495,7 +495,7 @@ func plantNumeric(r *rng.R, p *Prog, g *gen) string {
 		return label
 	}
 	// one planted defect that the compiler must reject
-	kind := r.Intn(18)
+	kind := r.Intn(20)
 	switch {
 	case kind == 0 && len(structs) > 0:
 		s := structs[r.Intn(len(structs))]
@@ -677,6 +677,39 @@ func plantNumeric(r *rng.R, p *Prog, g *gen) string {
 			f.Defs = append(f.Defs, &Def{Kind: 'V', Name: n, Parent: n2}, &Def{Kind: 'V', Name: n2, Parent: n})
 		}
 		label = "service that inherits from itself"
+	case kind == 18 && len(structs) > 0 && !p.Strict:
+		// an auto-assigned identifier that meets an explicit negative one: -N, -1, then N-1 fields
+		// without identifier (-2 … -N)
+		s := structs[r.Intn(len(structs))]
+		for i, f := range s.Fields {
+			f.ID, f.IDLit = i64p(int64(i+1)), ""
+		}
+		n := int64(2 + r.Intn(3))
+		s.Fields = append(s.Fields, &Field{ID: i64p(-n), Name: g.name("f"), Req: 'o', Ty: &TExpr{Kind: "i32"}},
+			&Field{ID: i64p(-1), Name: g.name("f"), Req: 'o', Ty: &TExpr{Kind: "i32"}})
+		for k := int64(1); k < n; k++ {
+			s.Fields = append(s.Fields, &Field{Name: g.name("f"), Req: 'o', Ty: &TExpr{Kind: "string"}})
+		}
+		label = "non-strict: auto-assigned field id equal to an explicit one"
+	case kind == 19:
+		// an enum item where an i8 / i16 is expected, with a value outside that type (whether enum
+		// items may stand for integers at all is the compiler's choice; outside the range they may not)
+		f := p.Files[r.Intn(len(p.Files))]
+		ty := []string{"i8", "i16"}[r.Intn(2)]
+		b := intBounds[ty]
+		v := []int64{b[1] + 1, b[0] - 1, 100000, 2147483647, -2147483648}[r.Intn(5)]
+		en, in := g.name("E"), g.name("I")
+		f.Defs = append(f.Defs, &Def{Kind: 'E', Name: en, Items: []EnumItem{{Name: g.name("I"), Val: i64p(1)}, {Name: in, Val: i64p(v)}}})
+		ref := &CV{Kind: 'r', R: en + "." + in}
+		switch r.Intn(3) {
+		case 0:
+			f.Defs = append(f.Defs, &Def{Kind: 'C', Name: g.name("c"), Ty: &TExpr{Kind: ty}, Val: ref})
+		case 1:
+			f.Defs = append(f.Defs, &Def{Kind: 'C', Name: g.name("c"), Ty: &TExpr{Kind: "list", A: &TExpr{Kind: ty}}, Val: &CV{Kind: 'l', L: []*CV{{Kind: 'i', I: 1}, ref}}})
+		default:
+			f.Defs = append(f.Defs, &Def{Kind: 'S', SKind: 's', Name: g.name("S"), Fields: []*Field{{ID: i64p(1), Name: g.name("f"), Req: 'o', Ty: &TExpr{Kind: ty}, Dflt: ref}}})
+		}
+		label = "enum item outside the integer type it is used as"
 	case kind == 10:
 		f := p.Files[r.Intn(len(p.Files))]
 		if len(f.Defs) > 0 {
@@ -753,7 +786,7 @@ func runC09(c *checker, r *rng.R) {
 		c09Program(c, p, "generated", "")
 	}
 	c.flush()
-	c.rep.Rule = "programs whose numeric literals sit around every type boundary (0, ±1, ±2^7, ±2^15, ±2^31, ±2^63 and neighbours; decimal, +signed, zero-padded decimal and hex spellings): field identifiers explicit / unset (auto-negative in non-strict mode), enum values explicit / implicit, integer constants and defaults of i8/i16/i32/i64/double/bool/enum types (also inside lists, maps, struct literals, through typedefs), strict and non-strict mode; 40% carry one planted defect the compiler must reject (identifier above 32767 / below 1 / below -32768 / unset / duplicate, duplicate names, literal beyond int64, enum value outside int32, integer constant or default outside its i8/i16/i32 type, bool other than 0/1, enum value that is no item or equals one only modulo 2^32, constant or service defined in terms of itself, also through struct / list / map literals of a recursive struct type); oracle: compiled numbers equal the source and lie in range, else rejected; compared with the Lean model; every case non-trivial; distinct by program. The shapes of the repaired findings D5 D6 D7 D8 D9 are ordinary planted defects and corpus entries; plus a probe built for GOARCH=386 and run under 32-bit emulation: numbers that do not fit a 32-bit int must be rejected, not truncated (D82, repaired)."
+	c.rep.Rule = "programs whose numeric literals sit around every type boundary (0, ±1, ±2^7, ±2^15, ±2^31, ±2^63 and neighbours; decimal, +signed, zero-padded decimal and hex spellings): field identifiers explicit / unset (auto-negative in non-strict mode), enum values explicit / implicit, integer constants and defaults of i8/i16/i32/i64/double/bool/enum types (also inside lists, maps, struct literals, through typedefs), strict and non-strict mode; 40% carry one planted defect the compiler must reject (identifier above 32767 / below 1 / below -32768 / unset / duplicate, duplicate names, literal beyond int64, enum value outside int32, integer constant or default outside its i8/i16/i32 type, an enum item beyond the i8/i16 it is used as, an auto-assigned identifier equal to an explicit negative one, bool other than 0/1, enum value that is no item or equals one only modulo 2^32, constant or service defined in terms of itself, also through struct / list / map literals of a recursive struct type); oracle: compiled numbers equal the source and lie in range, else rejected; compared with the Lean model; every case non-trivial; distinct by program. The shapes of the repaired findings D5 D6 D7 D8 D9 are ordinary planted defects and corpus entries; plus a probe built for GOARCH=386 and run under 32-bit emulation: numbers that do not fit a 32-bit int must be rejected, not truncated (D82, repaired)."
 }
 
 // constReaches: does the value of `from` mention (at any depth, through other constants of the
